@@ -26,6 +26,9 @@ class SimClock:
         self.reads: t.List[int] = []
 
     def time_ns(self) -> int:
+        from simworld import threads
+
+        threads.mark("clock")
         v = self.ns
         self.reads.append(v)
         if len(self.reads) > 10000:
@@ -76,6 +79,9 @@ class SimEntropy:
         self.frozen: t.Optional[bytes] = None  # if set every draw returns this pattern (sensitivity experiments)
 
     def draw(self, n: int, source: str = "urandom") -> bytes:
+        from simworld import threads
+
+        threads.mark("entropy")
         q = self.scripted.get((source, n)) or self.scripted.get(n)
         if q:
             out = q.pop(0)
@@ -107,6 +113,7 @@ class World:
         self.clock = SimClock() if clock_ns is None else SimClock(clock_ns)
         self.entropy = SimEntropy(seed)
         self.stats: t.Dict[str, int] = collections.Counter()
+        self.host_fqdn = "app01.hosting.example"  # the machine the client runs on (its DNS suffix is NOT the AD domain)
         self.events: t.List[tuple] = []
         self._digest = hashlib.sha256()
         self.seq = 0
@@ -199,6 +206,18 @@ class World:
         patch(_time, "time_ns", self.clock.time_ns)
         patch(_time, "time", self.clock.time)
         patch(socket, "create_connection", self.connect_sync)
+        # the host's own names are part of the world too (nothing in the unchanged library asks for them)
+        patch(socket, "getfqdn", lambda name="": self.host_fqdn if not name else name)
+        patch(socket, "gethostname", lambda: self.host_fqdn.split(".")[0])
+        import threading
+
+        from simworld import locks
+
+        import dpapi_ng as _pkg
+
+        sim_lock, sim_rlock = locks.factories(os.path.dirname(os.path.abspath(_pkg.__file__)) + os.sep, self.stats)
+        patch(threading, "Lock", sim_lock)
+        patch(threading, "RLock", sim_rlock)
         import asyncio
 
         world = self
